@@ -223,6 +223,7 @@ func runProperty(prop, tier, repo string, cs *Contracts, timeout int, verbose bo
 		funcs     []string
 		callers   []string
 		obls      []*Obligation
+		missing   []string // functions under contract that this configuration does not have
 	}
 	outs := make([]*cfgOut, len(configs))
 	var wgc sync.WaitGroup
@@ -266,9 +267,9 @@ func runProperty(prop, tier, repo string, cs *Contracts, timeout int, verbose bo
 				}
 				fn := p.funcs[k]
 				if fn == nil {
-					if !existsInOtherCfg(k, cs) {
-						out.genErrors = append(out.genErrors, fmt.Sprintf("%s@%s: function under contract does not exist", k, cfg.name))
-					}
+					// reported after both configurations have been generated, unless the other one has the function
+					// (closures and helpers of files with build constraints exist in one configuration only)
+					out.missing = append(out.missing, k)
 					continue
 				}
 				if len(fn.Blocks) == 0 {
@@ -393,6 +394,21 @@ func runProperty(prop, tier, repo string, cs *Contracts, timeout int, verbose bo
 	// phase 2: merge in configuration order, share identical queries, discharge
 	seenHash := map[string]*Obligation{}
 	var batch []*Obligation
+	for ci, out := range outs {
+		for _, k := range out.missing {
+			elsewhere := false
+			for cj, other := range outs {
+				for _, f := range other.funcs {
+					if cj != ci && f == k+"@"+configs[cj].name {
+						elsewhere = true
+					}
+				}
+			}
+			if !elsewhere {
+				r.genErrors = append(r.genErrors, fmt.Sprintf("%s@%s: function under contract does not exist", k, configs[ci].name))
+			}
+		}
+	}
 	for _, out := range outs {
 		r.genErrors = append(r.genErrors, out.genErrors...)
 		r.notes = append(r.notes, out.notes...)
@@ -436,7 +452,6 @@ func runProperty(prop, tier, repo string, cs *Contracts, timeout int, verbose bo
 	return r
 }
 
-func existsInOtherCfg(k string, cs *Contracts) bool { return false }
 
 func sanitizeFile(s string) string {
 	var b strings.Builder
